@@ -29,6 +29,15 @@ use subjects::{amt, What};
 #[global_allocator]
 static GLOBAL: exec::SeamAlloc = exec::SeamAlloc;
 
+/// The i-th plan of a source: "rnd" = seeded search, "sys" = systematic placement.
+fn make_plan(src: &str, base: u64, i: u64) -> Plan {
+    if src == "sys" {
+        plan::systematic(i)
+    } else {
+        plan::generate(run_seed(base, i))
+    }
+}
+
 fn run_seed(base: u64, i: u64) -> u64 {
     let mut p = prng::Prng::new(base.wrapping_mul(0x2545_F491_4F6C_DD1D) ^ i.wrapping_mul(0xD6E8_FEB8_6659_FD93));
     p.next() >> 1
@@ -93,7 +102,7 @@ fn watchdog() {
     });
 }
 
-fn worker(base: u64, first: u64, count: u64, known: &[String]) -> WorkerOut {
+fn worker(src: &str, base: u64, first: u64, count: u64, known: &[String]) -> WorkerOut {
     quiet_panics();
     watchdog();
     let mut out = WorkerOut::default();
@@ -103,7 +112,7 @@ fn worker(base: u64, first: u64, count: u64, known: &[String]) -> WorkerOut {
     let mut lh: u64 = 0xcbf2_9ce4_8422_2325;
     for i in first..first + count {
         PROGRESS.store(i, std::sync::atomic::Ordering::Relaxed);
-        let plan = plan::generate(run_seed(base, i));
+        let plan = make_plan(src, base, i);
         let res = execute(&plan);
         out.runs += 1;
         add(&mut out.stats_sum, &res.stats);
@@ -440,7 +449,11 @@ fn known_kinds(path: Option<&str>) -> Vec<(String, String)> {
 fn batch(args: &[String]) -> i32 {
     let t0 = Instant::now();
     let seed: u64 = arg(args, "--seed").and_then(|s| s.parse().ok()).unwrap_or(0);
-    let runs: u64 = arg(args, "--runs").and_then(|s| s.parse().ok()).unwrap_or(1000);
+    let src = arg(args, "--source").unwrap_or_else(|| "rnd".into());
+    let mut runs: u64 = arg(args, "--runs").and_then(|s| s.parse().ok()).unwrap_or(1000);
+    if src == "sys" {
+        runs = plan::sys_total(); // the bounded space is always enumerated completely
+    }
     let jobs: u64 = arg(args, "--jobs").and_then(|s| s.parse().ok()).unwrap_or(16).max(1);
     let tier = arg(args, "--tier").unwrap_or_else(|| "quick".into());
     let part = arg(args, "--part").unwrap_or_else(|| "part.json".into());
@@ -455,7 +468,7 @@ fn batch(args: &[String]) -> i32 {
     while first < runs {
         let n = chunk.min(runs - first);
         let ch = Command::new(&exe)
-            .args(["worker", &seed.to_string(), &first.to_string(), &n.to_string(), &known_list.join(",")])
+            .args(["worker", &src, &seed.to_string(), &first.to_string(), &n.to_string(), &known_list.join(",")])
             .stdout(Stdio::piped())
             .stderr(Stdio::inherit())
             .spawn()
@@ -509,8 +522,8 @@ fn batch(args: &[String]) -> i32 {
     // fresh process; the hashes cover every operation line of every run
     let mut deterministic = serde_json::Value::Null;
     if first_chunk_out.as_ref().map(|fc| fc.failure.is_none() && fc.runs >= recheck_n).unwrap_or(false) {
-        let a = worker_hash_prefix(&exe, seed, recheck_n, &known_list);
-        let b = worker_hash_prefix(&exe, seed, recheck_n, &known_list);
+        let a = worker_hash_prefix(&exe, &src, seed, recheck_n, &known_list);
+        let b = worker_hash_prefix(&exe, &src, seed, recheck_n, &known_list);
         deterministic = json!({"runs_rechecked": recheck_n, "identical": a.is_some() && a == b});
         if a.is_none() || a != b {
             eprintln!("HARNESS ERROR: two executions of the same {recheck_n} seeds differ");
@@ -538,7 +551,7 @@ fn batch(args: &[String]) -> i32 {
         let mut reproduced = fails_with(&plans, &v.kind, &known_list);
         if !reproduced {
             let chunk_first = (idx / chunk) * chunk;
-            plans = (chunk_first..=idx).map(|i| plan::generate(run_seed(seed, i))).collect();
+            plans = (chunk_first..=idx).map(|i| make_plan(&src, seed, i)).collect();
             reproduced = fails_with(&plans, &v.kind, &known_list);
         }
         let (plans, tried, minimised) = if reproduced {
@@ -552,7 +565,11 @@ fn batch(args: &[String]) -> i32 {
         let final_v = final_run
             .and_then(|r| r.violations.into_iter().find(|x| x.kind == v.kind))
             .unwrap_or(v.clone());
-        let path = format!("{}/C15-{}-seed{}-run{}.json", replay_dir, amt::BACKEND, seed, idx);
+        let path = if src == "sys" {
+            format!("{}/C15-{}-systematic-{}.json", replay_dir, amt::BACKEND, idx)
+        } else {
+            format!("{}/C15-{}-seed{}-run{}.json", replay_dir, amt::BACKEND, seed, idx)
+        };
         let rp = Replay {
             property: "C15".into(),
             backend: amt::BACKEND.into(),
@@ -581,6 +598,7 @@ fn batch(args: &[String]) -> i32 {
     let wall = t0.elapsed().as_secs_f64();
     let partv = json!({
         "backend": amt::BACKEND,
+        "source": src,
         "tier": tier,
         "seed": seed,
         "runs": nruns,
@@ -609,16 +627,16 @@ fn batch(args: &[String]) -> i32 {
     });
     std::fs::write(&part, serde_json::to_string_pretty(&partv).unwrap()).expect("write part");
     println!(
-        "[{}] runs={} ops={} judged={} seams={} switches_in_display={} faults(err/panic/nested)={}/{}/{} distinct_nontrivial_runs={} wall={:.1}s",
-        amt::BACKEND, nruns, total.ops, total.judged, total.seams, total.switches_inside_op,
+        "[{}{}] runs={} ops={} judged={} seams={} switches_in_display={} faults(err/panic/nested)={}/{}/{} distinct_nontrivial_runs={} wall={:.1}s",
+        amt::BACKEND, if src == "sys" { " systematic" } else { "" }, nruns, total.ops, total.judged, total.seams, total.switches_inside_op,
         total.sink_error_fired, total.sink_panic_fired, total.nested_fired, traces.len(), wall
     );
     exit
 }
 
-fn worker_hash_prefix(exe: &std::path::Path, seed: u64, n: u64, known: &[String]) -> Option<u64> {
+fn worker_hash_prefix(exe: &std::path::Path, src: &str, seed: u64, n: u64, known: &[String]) -> Option<u64> {
     let o = Command::new(exe)
-        .args(["worker", &seed.to_string(), "0", &n.to_string(), &known.join(",")])
+        .args(["worker", src, &seed.to_string(), "0", &n.to_string(), &known.join(",")])
         .stderr(Stdio::null())
         .output()
         .ok()?;
@@ -679,10 +697,11 @@ fn main() {
         }
         Some("exec") => exec_stdin(),
         Some("worker") => {
+            // worker <rnd|sys> <base> <first> <count> [known-kind,...]
             let g = |i: usize| args.get(i).and_then(|s| s.parse::<u64>().ok()).unwrap_or(0);
             let known: Vec<String> =
-                args.get(5).map(|s| s.split(',').filter(|x| !x.is_empty()).map(String::from).collect()).unwrap_or_default();
-            let out = worker(g(2), g(3), g(4), &known);
+                args.get(6).map(|s| s.split(',').filter(|x| !x.is_empty()).map(String::from).collect()).unwrap_or_default();
+            let out = worker(args.get(2).map(String::as_str).unwrap_or("rnd"), g(3), g(4), g(5), &known);
             println!("{}", serde_json::to_string(&out).unwrap());
             0
         }
